@@ -401,7 +401,7 @@ def _run(chk, exe, judge, wit, work):
                     mt[pos] = "@@"
                 size0 = any(a == "size" and b == "0" for a, b in zip(mt, mt[1:]))
                 chk.failure({"site": (p[2] if not size0 else "Linear_Expression_Impl") + "::ascii_load",
-                             "kind": "crash-on-malformed-stream" + ("-size-0-row" if size0 else "")},
+                             "kind": "malformed-size-0-row" if size0 else "crash-on-malformed-stream"},
                             {"harness_seed": hseed, "index": int(p[1]), "maxmut": maxmut, "class": p[2], "exit_status": p[3],
                              "token_index": pos, "mutation": {"D": "token deleted", "R": "token replaced by @@"}.get(kind, kind),
                              "token": tk[pos] if 0 <= pos < len(tk) else None,
@@ -533,8 +533,18 @@ def _run(chk, exe, judge, wit, work):
             if a == "1":
                 stats["mutants_accepted_by_both" if Mc.get(k) == "1" else "mutants_accept_disagree"] += 1
             if Mc.get(k) != a:
-                stats["mutant_disagreements"] += 1
                 cls = R.get(k[0], {}).get("cls", "?")
+                tk = objs.get(k[0], {}).get("d1", "").split()
+                mt = [t for k_, t in enumerate(tk) if not (k[2] == "D" and k_ == k[1])]
+                if any(x == "size" and y == "0" for x, y in zip(mt, mt[1:])) and a == "0":
+                    # the model rejects a row of size 0 (space_dimension() wraps around); the real loader goes on with
+                    # it and either crashes or returns true with a corrupt system: same root cause as the crash finding
+                    stats["mutants_size0_row"] += 1
+                    chk.failure({"site": "Linear_Expression_Impl::ascii_load", "kind": "malformed-size-0-row"},
+                                {"harness_seed": hseed, "index": k[0], "maxmut": maxmut, "token": k[1], "mutation": k[2],
+                                 "real_accepts": Mc.get(k), "model_accepts": a, "dump": objs.get(k[0], {}).get("d1", "")[:3000]})
+                    continue
+                stats["mutant_disagreements"] += 1
                 chk.broken.append(("mutant-accept-reject:%s" % cls, "object %d token %d kind %s: real %s model %s" % (k[0], k[1], k[2], Mc.get(k), a)))
                 chk.failure({"site": cls + "::ascii_load", "kind": "malformed-stream-accept-reject-differs-from-model"},
                             {"harness_seed": hseed, "index": k[0], "maxmut": maxmut, "token": k[1], "mutation": k[2],
